@@ -166,11 +166,27 @@ func VH_C11_Session() {
 	establish := func(what string) bool {
 		for attempt := 0; attempt < vParam("attempts", 1); attempt++ {
 			deadline := time.After(300 * time.Second)
+			retries := 0
 			for got := 0; got < 2; {
 				select {
 				case a = <-acc:
+					// a relay hiccup (truncated frame) may fail one
+					// Accept or Dial visibly; like gRPC the caller
+					// simply calls again
+					if a.err != nil && s.relay.junkAt != 0 && retries < 3 {
+						retries++
+						vReach("accept-recalled")
+						go func() { c, err := s.srv.Accept(); acc <- vConnResult{c, err} }()
+						continue
+					}
 					got++
 				case d = <-dia:
+					if d.err != nil && s.relay.junkAt != 0 && retries < 3 {
+						retries++
+						vReach("dial-recalled")
+						go func() { c, err := s.cli.Dial(s.ctx, "relay"); dia <- vConnResult{c, err} }()
+						continue
+					}
 					got++
 				case <-deadline:
 					vAssert(false, "no fresh connection handed out after the "+what+" one was closed")
